@@ -1,6 +1,7 @@
 import RbV.Spec.Occ
 import RbV.Basic.Sorted
 import RbV.Model.ShiftAnd
+import RbV.Model.Horspool
 /-!
 # C08 — exact matchers return exactly all occurrences
 
@@ -46,5 +47,13 @@ theorem shiftAnd_exact (p t : List Nat) (hp : 0 < p.length) (hm : p.length ≤ 6
   ShiftAnd.findAll_eq_occurrences p t hp hm
 
 example : ShiftAnd.findAll [1, 2, 1] [1, 2, 1, 2, 1] = [0, 2] := by decide
+
+/-- **Horspool** (mirror model of `horspool.rs`: the bad-character table built by the loop over `pattern[..m-1]`,
+the skip loop, the `last + 1 - m` arithmetic and the `text[i..j] == pattern[..m-1]` comparison) yields exactly the
+oracle's list for every non-empty pattern and every text: no occurrence is skipped by a shift. -/
+theorem horspool_exact (p t : List Nat) (hp : 0 < p.length) : Horspool.findAll p t = occurrences p t :=
+  Horspool.findAll_eq_occurrences p t hp
+
+example : Horspool.findAll [1, 2, 1] [1, 2, 1, 2, 1] = [0, 2] := by decide
 
 end RbV.Thm.C08
